@@ -80,6 +80,11 @@ def gen_cases(tier: str, seed: int) -> list[dict]:
         cases.append({"kind": "dataset", "fmt": fmt, "comp": comp, "algs": list(algs),
                       "n": rng.randint(3, 40), "eps": rng.randint(1, 7), "nested": k % 2 == 1,
                       "big": k % 4 == 0, "cseed": rng.randrange(1 << 30)})
+    # a file rewritten with other bytes of the same length and its old modification time (cp -p, rsync -t,
+    # coarse file-system clocks): the digest must be that of the bytes now in the file
+    for _ in range(10 if tier == "quick" else 100):
+        cases.append({"kind": "rewrite", "size": rng.choice([1, 1000, BUF, BUF + 1, 300_000]),
+                      "algs": rng.sample(ALGS, rng.randint(1, 3)), "cseed": rng.randrange(1 << 30)})
     n_conc = 10 if tier == "quick" else 120
     for _ in range(n_conc):
         cases.append({"kind": "concurrent", "threads": rng.choice([2, 3, 4, 8]),
@@ -124,6 +129,8 @@ def run_case(case: dict) -> dict:
             return run_file(case, work)
         if case["kind"] == "concurrent":
             return run_concurrent(case, work)
+        if case["kind"] == "rewrite":
+            return run_rewrite(case, work)
         return run_dataset(case, work)
     finally:
         common.rm(work)
@@ -181,6 +188,39 @@ def run_file(case: dict, work: Path) -> dict:
     return {"sig": [case["size"], case["content"], case["algs"]], "nontrivial": True,
             "violations": violations, "obs": {**obs, "size_classes": [size_class]},
             "sample": {"size": case["size"], "algs": list(algs), "digests": list(result)[:3]}}
+
+
+def run_rewrite(case: dict, work: Path) -> dict:
+    import os
+    import sedpack.io.utils as utils
+    from rtmon import audit as auditor
+    from rtmon.monitors import contracts
+    algs = tuple(case["algs"])
+    path = work / "blob.bin"
+    violations = []
+    checks = 0
+    for generation in range(3):
+        data = make_content(case["size"], "random", case["cseed"] + generation)
+        if path.exists():
+            stat = path.stat()
+            path.write_bytes(data)
+            os.utime(path, ns=(stat.st_atime_ns, stat.st_mtime_ns))     # same size, same mtime, other bytes
+        else:
+            path.write_bytes(data)
+        got = utils.hash_checksums(file_path=path, hashes=algs)
+        want = tuple(auditor.digest(data, a) for a in algs)
+        checks += 1
+        if tuple(got) != want:
+            violations.append({"key": "stale-digest-after-same-size-rewrite",
+                               "msg": f"size={case['size']} generation {generation}: returned {got}, the file now holds bytes "
+                                      f"whose digests are {want}"})
+    evals, failures = contracts.snapshot()
+    for failure in failures:
+        violations.append({"key": f"contract/{failure['contract']}", "msg": failure["msg"]})
+    return {"sig": ["rewrite", case["size"], case["algs"]], "nontrivial": True, "violations": violations,
+            "obs": {"files_hashed": checks, "same_size_rewrites": checks - 1, "external_tool_digests": 0,
+                    "stored_digests_checked": 0, "contract_evals_hash_checksums": evals.get("hash_checksums", 0)},
+            "sample": {"rewrite": case["size"], "algs": list(algs)}}
 
 
 def run_concurrent(case: dict, work: Path) -> dict:
